@@ -126,4 +126,23 @@ inductive FilterRule where
   | unknown
 deriving DecidableEq, Repr, Inhabited
 
+/-- C19: the public metadata mutators whose clone-before-write shape is regenerated
+    (finalizer.go Add/Remove/Set, internal/kv/kv.go Set/Delete/Do) -/
+inductive Mutator where
+  | finAdd | finRemove | finSet | kvSet | kvDelete | kvDo
+deriving DecidableEq, Repr, Inhabited
+
+/-- C19: the sites where a resource object crosses the store boundary
+    (inmem/collection.go Create/Update/Get/List, cache/handler.go get/list) -/
+inductive CopySite where
+  | collCreate | collUpdate | collGet | collList | cacheGet | cacheList
+deriving DecidableEq, Repr, Inhabited
+
+/-- C19: the regenerated aliasing facts as one value, so that the heap model can be
+    instantiated both with the regenerated table and with counter-factual tables -/
+structure AliasFacts where
+  cloneBeforeWrite : Mutator → Bool
+  deepCopyIn : CopySite → Bool
+  deepCopyOut : CopySite → Bool
+
 end Cosi.Gen
